@@ -974,8 +974,10 @@ class ISMAGS:
             can be interchanged without changing nodes less than `key`.
         """
         if self._symmetry_cache is not None:
-            key = hash((tuple(graph.nodes), tuple(graph.edges),
-                        tuple(map(tuple, node_partitions)), tuple(edge_colors.items())))
+            # The description itself is the key, not its hash: different
+            # graphs can have the same hash (hash(-1) == hash(-2)).
+            key = (tuple(graph.nodes), tuple(graph.edges),
+                   tuple(map(tuple, node_partitions)), tuple(edge_colors.items()))
             if key in self._symmetry_cache:
                 return self._symmetry_cache[key]
         node_partitions = list(self._refine_node_partitions(graph,
